@@ -137,9 +137,20 @@ def observe(case):
         apply_edit(tree, case["edit"])
     try:
         import warnings
+        import collections
+        import types
+        # the assignment is handed over as a dict, a read-only mapping, an OrderedDict, a ChainMap or a defaultdict (which would
+        # insert a key on a careless look-up); whatever it is, evaluate must leave it as it was
+        flavour = common.pick(repr(case.get("term"))[:200], 5) if ctx else 0
+        given = None if ctx is None else dict(ctx)
+        if ctx is not None:
+            given = (given, types.MappingProxyType(dict(ctx)), collections.OrderedDict(ctx), collections.ChainMap(dict(ctx), {}),
+                     collections.defaultdict(lambda: None, ctx))[flavour]
         with warnings.catch_warnings():
             warnings.simplefilter("ignore")
-            r = tree.evaluate(dict(ctx) if ctx is not None else None)
+            r = tree.evaluate(given)
+        if given is not None and dict(given) != dict(ctx):
+            return {"t": "exc", "cls": "evaluate changed the assignment it was given"}
     except RecursionError:
         return {"t": "exc", "cls": "RecursionError"}
     except BaseException as e:  # noqa
